@@ -86,6 +86,33 @@ fn run_one(acc: &mut Acc, what: &str, prefill_code: u8, expected: Option<Vec<u8>
             } else if !ok_ret {
                 acc.violation("return-value-wrong", what, format!("Ok({})", e.len()), format!("{:?}", r.as_ref().map_err(|x| x.kind())));
             }
+            // the same value once more into the same writer (still below its limit), and -- for an empty prefill -- the
+            // whole sequence into `Writer::default()`, which must behave like `Writer::from(Vec::new())`
+            if ok_out && ok_ret {
+                let mut writers: Vec<(&str, Writer)> = vec![("Writer::from(prefill), second write", Writer::from(out.clone()))];
+                if prefill.is_empty() {
+                    let mut d = Writer::default();
+                    let r1 = write(&mut d);
+                    acc.eval(1);
+                    if !matches!(&r1, Ok(n) if *n == e.len()) {
+                        acc.violation("default-writer-differs", what, format!("Ok({}) as with Writer::from(Vec::new())", e.len()), format!("{:?}", r1.as_ref().map_err(|x| x.kind())));
+                    }
+                    writers.push(("Writer::default(), second write", d));
+                }
+                for (how, mut w2) in writers {
+                    let before = out.len();
+                    if before >= LIMIT {
+                        continue;
+                    }
+                    let r2 = write(&mut w2);
+                    let out2 = w2.finish();
+                    acc.eval(1);
+                    let fine = matches!(&r2, Ok(n) if *n == e.len()) && out2.len() == before + e.len() && out2[..before] == out[..] && out2[before..] == e[..];
+                    if !fine {
+                        acc.violation("second-write-differs", &format!("{} [{}]", what, how), format!("Ok({}), {} + {} bytes", e.len(), before, e.len()), format!("{:?}, {} bytes", r2.as_ref().map_err(|x| x.kind()), out2.len()));
+                    }
+                }
+            }
             match to_bytes() {
                 Ok(b) if b == *e => {}
                 other => acc.violation("to_bytes-differs", what, format!("Ok({} bytes)", e.len()), format!("{:?}", other.as_ref().map(|b| b.len()).map_err(|x| x.kind()))),
